@@ -51,6 +51,8 @@ constexpr sz RD      = count_dyn();
 constexpr bool ZS    = zero_static();          // a static extent is 0: the index space is empty for every value of the dynamic extents
 constexpr bool MIXED = RD > 0 && RD < R;
 constexpr bool multi() { for (sz r = 0; r < R; r++) if (SE[r] == DYN || SE[r] > 1) return true; return false; }
+constexpr bool eq_possible() { for (sz r = 0; r < R; r++) if (SE[r] != DYN && SE[r] > DMAX) return false; return true; }
+constexpr bool EQ_POSSIBLE = eq_possible();   // a dextents object with extents <= DMAX can equal these extents
 constexpr bool MULTI = multi();           // the index space can hold more than one multi-index
 constexpr u64 ITMAX  = u64(std::numeric_limits<idx_t>::max());
 constexpr bool IT_IS_SIZE_T = std::is_same_v<idx_t, size_t>;
@@ -129,7 +131,7 @@ Q q_ext()
     for (sz r = 0; r <= R; r++) vf_assert(k_fwd(e, r) == prod(e, 0, r), "fwd_prod_of_extents(r) == product of extents 0..r");
     vf_assert(k_ext_eq(e, b) == same(e, b), "extents == dextents compares every extent");
     vf_assert(k_ext_eq_same(e, e2) == same(e, e2), "extents == extents compares every extent");
-    if (same(e, b)) vf_witness("equal extents reachable");
+    if (EQ_POSSIBLE && same(e, b)) vf_witness("equal extents reachable");
     k_default(out);
     for (sz r = 0; r < R; r++) vf_assert(out[r] == (SE[r] == DYN ? idx_t(0) : idx_t(SE[r])), "default extents: dynamic extents are 0");
     if (RD > 0) {
